@@ -160,7 +160,10 @@ func vConfFor(cfg vCfg) *Conf {
 
 // newVInst assembles one instance. Mirrors the tail of NewUPF (pool, TEID generator, SetUpfInfo) with fixed
 // N3/N6 addresses instead of interface look-ups; everything else is the real code.
-func newVInst(cfg vCfg) *vInst {
+func newVInst(cfg vCfg) *vInst { return newVInstWith(cfg, nil) }
+
+// newVInstWith builds an instance against an existing (possibly populated) fake BESS: a new incarnation of the agent.
+func newVInstWith(cfg vCfg, oldFB *fakeBESS) *vInst {
 	if cfg.NConns == 0 {
 		cfg.NConns = 1
 	}
@@ -184,7 +187,10 @@ func newVInst(cfg vCfg) *vInst {
 	if cfg.P4 {
 		in.p4 = newVP4Env(in, conf)
 	} else {
-		in.fb = newFakeBESS()
+		in.fb = oldFB
+		if in.fb == nil {
+			in.fb = newFakeBESS()
+		}
 		srv, addr, ready := fbFrontEnd()
 		srv.attach(in.fb)
 		b := &bess{}
@@ -382,8 +388,8 @@ type sPDR struct {
 type sFAR struct {
 	ID      uint32 `json:"id"`
 	Action  uint8  `json:"action"`
-	HasFwd  bool   `json:"fwd,omitempty"`  // (Update) Forwarding Parameters present
-	Dst     uint8  `json:"dst,omitempty"`  // destination interface (ie.DstInterfaceAccess 0 / Core 1)
+	HasFwd  bool   `json:"fwd,omitempty"` // (Update) Forwarding Parameters present
+	Dst     uint8  `json:"dst,omitempty"` // destination interface (ie.DstInterfaceAccess 0 / Core 1)
 	HasDst  bool   `json:"hasdst,omitempty"`
 	OHCIP   string `json:"ohcip,omitempty"` // outer header creation peer (empty = none)
 	OHCTEID uint32 `json:"ohcteid,omitempty"`
@@ -421,15 +427,15 @@ type sPFD struct {
 }
 
 type sReq struct {
-	Kind   string `json:"kind"`
-	Conn   int    `json:"conn"`
-	Seq    uint32 `json:"seq,omitempty"` // 0 = take the next one of the connection
-	SEID   uint64 `json:"seid,omitempty"`   // header SEID (mod/del/reportresp): the UP SEID as known to the CP
-	CPSEID uint64 `json:"cpseid,omitempty"` // est: CP F-SEID; mod: new CP F-SEID when HasCP
-	HasCP  bool   `json:"hascp,omitempty"`
-	NodeID string `json:"node,omitempty"` // "" = the association's node id
-	Cause  uint8  `json:"cause,omitempty"`
-	NoCause bool  `json:"nocause,omitempty"`
+	Kind    string `json:"kind"`
+	Conn    int    `json:"conn"`
+	Seq     uint32 `json:"seq,omitempty"`    // 0 = take the next one of the connection
+	SEID    uint64 `json:"seid,omitempty"`   // header SEID (mod/del/reportresp): the UP SEID as known to the CP
+	CPSEID  uint64 `json:"cpseid,omitempty"` // est: CP F-SEID; mod: new CP F-SEID when HasCP
+	HasCP   bool   `json:"hascp,omitempty"`
+	NodeID  string `json:"node,omitempty"` // "" = the association's node id
+	Cause   uint8  `json:"cause,omitempty"`
+	NoCause bool   `json:"nocause,omitempty"`
 
 	CreatePDR []sPDR   `json:"cpdr,omitempty"`
 	CreateFAR []sFAR   `json:"cfar,omitempty"`
